@@ -27,7 +27,7 @@ GT: '>';
 
 AMPERSAND: '&';
 
-TEXT: '"' (~["] | '\\"')* '"';
+TEXT: '"' (~["\\] | '\\' .)* '"';
 INTEGER: [0-9]+;
 DECIMAL: [0-9]+ '.' [0-9]+;
 
